@@ -41,6 +41,9 @@ pub uninterp spec fn opts_expired(o: JobOptions) -> bool;
 
 #[verifier::external_body] #[verifier::reject_recursive_types(K)] #[verifier::reject_recursive_types(M)]
 pub struct WorkerRef<K, M> { _p: core::marker::PhantomData<(K, M)> }
+/// the worker actor behind this reference no longer takes messages by the end of the factory call under contract.  Death is monotone,
+/// so a `cast` that was refused at any point of the call implies it (A-chan: a cast is only refused by a closed mailbox)
+pub uninterp spec fn gone<K, M>(w: WorkerRef<K, M>) -> bool;
 #[verifier::external_body] #[verifier::reject_recursive_types(K)] #[verifier::reject_recursive_types(M)]
 pub struct ReplyPort<K, M> { _p: core::marker::PhantomData<(K, M)> }
 #[verifier::external_body] #[verifier::reject_recursive_types(K)] #[verifier::reject_recursive_types(M)]
@@ -270,7 +273,7 @@ impl<K: JobKey, M: Message> WorkerRef<K, M> {
         with Tracked(log): Tracked<&mut EffectLog>
         ensures
             r is Ok ==> final(log).s == old(log).s.push(Effect::Cast(wm_jid(msg))),
-            r matches Err(e) ==> final(log).s == old(log).s && e == MessagingErr::SendErr(msg),
+            r matches Err(e) ==> final(log).s == old(log).s && e == MessagingErr::SendErr(msg) && gone(*self),
     )]
     pub fn cast(&self, msg: WorkerMessage<K, M>) -> Result<(), MessagingErr<WorkerMessage<K, M>>> { unimplemented!() }
 }
